@@ -45,7 +45,7 @@ class LPSpec(object):
         self.rule = rule
         self.runs = runs
         self.required_probes = required_probes
-        self.oracle = oracles.LP_ORACLES[prop]
+        self.oracle = oracles.LP_ORACLES.get(prop)
         self.builder = scenarios.BUILDERS[prop]
 
     def build(self, rng, tier):
@@ -204,3 +204,232 @@ PROPS['C11'] = LPSpec(
     'tie-break (every valid matching is optimal); non-trivial = printed '
     'matching non-empty; distinct = distinct event-log digests among those',
     {'quick': 30000, 'thorough': 1000000})
+
+
+# ---------------------------------------------------------------------------
+# C14: fault enumeration
+# ---------------------------------------------------------------------------
+class C14Spec(LPSpec):
+    level = 'fault_enumeration'
+    real_lane = {'quick': 0.0, 'thorough': 0.0}
+    xrate = {'quick': 0.01, 'thorough': 0.02}
+    components = dict(COMPONENTS_LP)
+
+    def build(self, rng, tier):
+        sc = self.builder(rng, tier)
+        sc['tier'] = tier
+        return sc
+
+    def expand(self, sc, rng, tier):
+        # fault-free dry run: number of rounds K
+        dry = copy.deepcopy(sc)
+        dry['backend']['durations'] = [1e-4] * 40
+        tr = execute.run_lp(dry, keep_sets=False)
+        K = len([r for r in tr.rounds if r['solve_index'] == 1])
+        out = []
+        base = copy.deepcopy(sc)
+        base['backend']['durations'] = scenarios.clock_plan(
+            rng, sc.get('limit'), K)
+        base['K'] = K
+        out.append(base)           # fault-free under a seeded clock plan
+        if K == 0 or K > 10:
+            return out
+        for plan in scenarios.c14_plans(rng, K, sc.get('limit'), tier):
+            c = copy.deepcopy(sc)
+            c['backend']['faults'] = plan
+            c['backend']['durations'] = scenarios.clock_plan(
+                rng, sc.get('limit'), K)
+            c['backend']['choice_seed'] = rng.randrange(2 ** 31)
+            c['K'] = K
+            out.append(c)
+        return out
+
+
+PROPS['C14'] = C14Spec(
+    'C14',
+    'per seeded scenario (instance x criteria x time limit) a fault-free run '
+    'fixes the number K of back-end solves; then every single fault (round '
+    '1..K x {Infeasible, Unbounded, Undefined, Not Solved, time-limit stop '
+    'with incumbent, without incumbent} x {transient, persistent} x value '
+    'mode) and a seeded sample of fault pairs is injected, each under a '
+    'seeded clock plan; non-trivial = some round did not end in a proven '
+    'optimum; distinct = distinct event-log digests among those',
+    {'quick': 400, 'thorough': 12000},
+    required_probes=('cut-short:tl-incumbent', 'cut-short:tl-no-incumbent',
+                     'cut-short:status:Not Solved', 'cut-after-first-round'))
+PROPS['C14'].oracle = oracles.c14
+
+
+# ---------------------------------------------------------------------------
+# C16
+# ---------------------------------------------------------------------------
+class C16Spec(LPSpec):
+    real_lane = {'quick': 0.0, 'thorough': 0.0}
+
+    def build(self, rng, tier):
+        sc = self.builder(rng, tier)
+        sc['tier'] = tier
+        return sc
+
+    def expand(self, sc, rng, tier):
+        if sc.get('c16') != 'fault-prefix':
+            return [sc]
+        dry = copy.deepcopy(sc)
+        tr = execute.run_lp(dry, keep_sets=False)
+        K = len([r for r in tr.rounds if r['solve_index'] == 1])
+        if K == 0:
+            return [sc]
+        out = []
+        for _ in range(3):
+            c = copy.deepcopy(sc)
+            c['backend']['faults'] = [{
+                'round': rng.randint(1, K),
+                'kind': rng.choice(scenarios.STATUS_FAULTS),
+                'persist': rng.random() < 0.5,
+                'values': rng.choice(scenarios.VALUE_MODES)}]
+            out.append(c)
+        return out
+
+    def evaluate(self, sc, xstats=None, xrng=None):
+        if sc.get('c16') == 'refuse':
+            tr = execute.run_lp(sc)
+            return tr, oracles.c16_refuse(sc, tr)
+        ctx = oracles.LPContext(sc)
+        tr = execute.run_lp(sc, prefer=ctx.prefer)
+        return tr, oracles.c16_order(ctx, tr)
+
+    def shrink(self, sc):
+        if sc.get('c16') == 'refuse':
+            for c in shrink_lp(sc, 1, True):
+                yield c
+            if sc.get('no_file'):
+                c = copy.deepcopy(sc)
+                c['no_file'] = False
+                yield c
+            return
+        for c in shrink_lp(sc, 1, False):
+            yield c
+
+
+PROPS['C16'] = C16Spec(
+    'C16',
+    'seeded position assignments x flag permutations x extra-argument vectors '
+    'on a small instance: (a) valid ones: optimisation_options and the '
+    'reported "- optimisation:" lines follow position order and the result is '
+    'the lexicographic optimum in that order; (b) invalid ones (position out '
+    'of 1..9, shared position, -stab without -twopl; instance file present or '
+    'missing): SystemExit(2) and no open of the instance in the audit-hook '
+    'spy; (c) a status fault at a seeded round: reported prefix; non-trivial '
+    '= flags given out of position order, or a refusal; distinct = distinct '
+    'event-log digests among those',
+    {'quick': 12000, 'thorough': 400000},
+    required_probes=('refuse:pos-out-of-range', 'refuse:duplicate-pos',
+                     'refuse:stab-without-twopl', 'refuse-with-missing-file',
+                     'prefix-under-injected-fault', 'gapped'))
+
+
+# ---------------------------------------------------------------------------
+# C18
+# ---------------------------------------------------------------------------
+class C18Spec(LPSpec):
+    real_lane = {'quick': 0.02, 'thorough': 0.03}
+
+    def shrink(self, sc):
+        ops = sc['ops']
+        for k in range(len(ops) - 1, 0, -1):
+            c = copy.deepcopy(sc)
+            del c['ops'][k]
+            yield c
+        for c in shrink_lp(sc, 0, False):
+            yield c
+        if sc['opts'].get('bf'):
+            c = copy.deepcopy(sc)
+            c['opts']['bf'] = False
+            yield c
+
+
+PROPS['C18'] = C18Spec(
+    'C18',
+    'seeded API histories of length 2..12 over {solve, get_results, '
+    'get_results_short, get_results_long, get_debug, idle gap} starting with '
+    'solve, LP and brute-force mode, back end drawing a fresh optimal '
+    'tie-break on every solve; non-trivial = history with a second solve or '
+    'a repeated getter; distinct = distinct event-log digests among those',
+    {'quick': 12000, 'thorough': 400000},
+    required_probes=('different-matchings-across-solves',
+                     'repeated-getter-calls', 'bf'))
+PROPS['C18'].oracle = oracles.c18
+
+
+# ---------------------------------------------------------------------------
+# C06
+# ---------------------------------------------------------------------------
+class C06Spec(LPSpec):
+    keep_stab = True
+    real_lane = {'quick': 0.0, 'thorough': 0.0}
+    xrate = {'quick': 0.0, 'thorough': 0.0}
+
+    def build(self, rng, tier):
+        sc = self.builder(rng, tier)
+        sc['tier'] = tier
+        return sc
+
+    def shrink(self, sc):
+        byz = sc.get('byz')
+        if byz and len(byz) > 1:
+            for k in range(len(byz)):
+                c = copy.deepcopy(sc)
+                c['byz'] = [byz[k]]
+                c['ops'] = [['solve', {}], ['get_results']]
+                yield c
+        if byz:
+            # instance shrinking would invalidate the recorded assignments:
+            # shrink quotas/ties only through candidates that keep them legal
+            for inst in instances.shrink_candidates(sc['inst']):
+                if len(inst['students']) != len(sc['inst']['students']) or \
+                        len(inst['projects']) != len(sc['inst']['projects']):
+                    continue
+                c = copy.deepcopy(sc)
+                c['inst'] = inst
+                if _byz_legal(c):
+                    yield c
+            if sc['opts'].get('pc'):
+                c = copy.deepcopy(sc)
+                c['opts']['pc'] = False
+                yield c
+            return
+        for c in shrink_lp(sc, 0, True):
+            yield c
+
+
+def _byz_legal(sc):
+    import refmodel as rm
+    try:
+        I = rm.parse(instances.render(sc['inst']), sc['na'], True)
+    except Exception:
+        return False
+    for M in sc['byz']:
+        M = tuple(M)
+        if not rm.acceptable(I, M):
+            return False
+        pc, lc = rm.counts(I, M)
+        if any(pc[j] > I.puq[j] for j in range(I.n2)) or \
+                any(lc[k] > I.luq[k] for k in range(I.n3)):
+            return False
+    return True
+
+
+PROPS['C06'] = C06Spec(
+    'C06',
+    'seeded two-sided instances under -stab with a Byzantine back end that '
+    'answers each solve with a seeded assignment respecting acceptability and '
+    'project/lecturer upper quotas only (half stable, half unstable by the '
+    'reference), 2..8 assignments per loaded instance through repeated '
+    'solve(); one run in four is a fault-free -stab run (corollary); '
+    'non-trivial = run containing at least one assignment with a blocking '
+    'pair; distinct = distinct event-log digests among those',
+    {'quick': 8000, 'thorough': 300000},
+    required_probes=('blocking:3a', 'blocking:3b-in', 'blocking:3b-pref',
+                     'blocking:3c', 'full-and-empty-agent',
+                     'fault-free-stab'))
+PROPS['C06'].oracle = oracles.c06
